@@ -390,6 +390,15 @@ class InterpUnit(Unit):
                 a, b = gens.dyadic(rng, -4, 4, 2), gens.dyadic(rng, -4, 4, 2)
                 c["y"] = [a * v + b for v in x]  # affine data
                 c["affine"] = [a, b]
+            if rng.random() < 0.2:
+                # an integer-typed grid (np.arange, a list of ints, the default abscissae of Weaver(None, y)) with non-integral values
+                c["new_x"] = sorted(float(round(v)) for v in c["new_x"])
+                c["grid_kind"] = rng.choice(["int64", "intlist", "floatlist"])
+                if rng.random() < 0.5:
+                    c["x"] = sorted(set(float(round(v)) + i for i, v in enumerate(x)))
+                    c["y"] = c["y"][:len(c["x"])]
+                    c["x_kind"] = "int64"
+                    c.pop("affine", None)
             cases.append(c)
         return cases
 
@@ -398,8 +407,12 @@ class InterpUnit(Unit):
         kw = {}
         if "left" in c:
             kw["left"] = c["left"]
+        gk = c.get("grid_kind", "float")
+        grid = (np.array(c["new_x"], dtype=np.int64) if gk == "int64" else [int(v) for v in c["new_x"]] if gk == "intlist"
+                else list(c["new_x"]) if gk == "floatlist" else np.array(c["new_x"], dtype=float))
+        xin = np.array(c["x"], dtype=np.int64 if c.get("x_kind") == "int64" else float)
         try:
-            r = interpolate(np.array(c["x"], dtype=float), np.array(c["y"], dtype=float), np.array(c["new_x"], dtype=float), method=c["method"], **kw)
+            r = interpolate(xin, np.array(c["y"], dtype=float), grid, method=c["method"], **kw)
             return {"out": np.asarray(r, dtype=float).tolist()}
         except Exception as e:
             return {"exc": exn_name(e)}
